@@ -1194,9 +1194,9 @@ impl TDigestView<'_> {
                 let w2 = weight_so_far + dw - weight - right_weight;
                 return Some(weighted_average(
                     self.centroids[i].mean,
-                    w1,
-                    self.centroids[i + 1].mean,
                     w2,
+                    self.centroids[i + 1].mean,
+                    w1,
                 ));
             }
             weight_so_far += dw;
